@@ -167,3 +167,21 @@ func VerifSetFinalizerSeam(f func(obj interface{}, finalizer interface{})) {
 
 // VerifWeakRefPool returns the pool of the current context.
 func (r *Runtime) VerifWeakRefPool() VerifGCPool { return r.weakRefPool }
+
+// VerifGoFunctionCallDepth returns the current depth of Go function calls in
+// the thread (0 when no Go function is running in it).
+func (t *Thread) VerifGoFunctionCallDepth() int { return t.goFunctionCallDepth }
+
+// VerifCloseStackSize returns the number of pending to-be-closed values of the
+// thread.
+func (t *Thread) VerifCloseStackSize() int { return t.closeStack.size() }
+
+// VerifContextDepth returns the number of contexts pushed on the runtime's
+// context stack (0 = only the root context).
+func (r *Runtime) VerifContextDepth() int {
+	n := 0
+	for c := r.RuntimeContext().Parent(); c != nil; c = c.Parent() {
+		n++
+	}
+	return n
+}
